@@ -40,7 +40,17 @@ def const_array(ndim, elem, value):
 class LoopSpec(object):
     def __init__(self, d):
         self.var = d.get('var')
-        self.invariant = list(d.get('invariant', []))
+        # an invariant entry is a clause string, or (clause, {'by': [facts], 'cases': [...]}): its preservation is then proved
+        # from the listed facts (each proved in the full end-of-body context; '@head' = this clause at the loop head) and the
+        # arithmetic part of the path condition only
+        self.invariant = []
+        self.step_by = {}
+        for ci, item in enumerate(d.get('invariant', [])):
+            if isinstance(item, (tuple, list)):
+                self.invariant.append(item[0])
+                self.step_by[ci] = dict(item[1])
+            else:
+                self.invariant.append(item)
         self.hints_head = list(d.get('hints_head', []))       # lemma calls / asserts after assuming the invariant
         self.hints_end = list(d.get('hints_end', []))         # ... at the end of the body before re-proving it
         self.hints_exit = list(d.get('hints_exit', []))
@@ -764,10 +774,45 @@ class FuncVerifier(object):
                     raise OutOfFragment('loop variable reassigned in the body', n)
                 self.check_rebinds(n, s_h, s1)
                 self.apply_hints(s1, ls.hints_end, site + '.end')
+                by_facts = {}
+                for ci, spec_ in ls.step_by.items():
+                    # facts are stated about the iteration that just ran (loop variable = iv)
+                    sp0 = self.spec(s1)
+                    facts = []
+                    for fi, fx in enumerate(spec_.get('by', [])):
+                        if fx == '@head':
+                            env_h, heap_h = s1.snaps[site + '.head']
+                            sph = SpecEval(self.lib.theory, env_h, heap_h, self.entry.env, self.entry.heap, self.lib.preds)
+                            sph.snaps = s1.snaps
+                            facts.append(sph.ev_bool(ls.invariant[ci]))
+                            continue
+                        if isinstance(fx, tuple):
+                            scratch = s1.copy()
+                            n0 = len(scratch.pc)
+                            self.apply_one_hint(scratch, fx, fi, '%s.inv%d.step.fact' % (site, ci), None)
+                            facts.extend(scratch.pc[n0:])
+                            continue
+                        fz = sp0.ev_bool(fx)
+                        self.oblige(s1, '%s.inv%d.step.fact%d' % (site, ci, fi), fz, n, note=fx)
+                        facts.append(fz)
+                    cases = [sp0.ev_bool(c_) for c_ in spec_.get('cases', [])]
+                    by_facts[ci] = (facts, cases)
                 s1.env[var] = iv + 1
                 sp1 = self.spec(s1)
                 for ci, clause in enumerate(ls.invariant):
-                    self.oblige(s1, '%s.inv%d.step' % (site, ci), sp1.ev_bool(clause), n, note=clause)
+                    g = sp1.ev_bool(clause)
+                    if ci in by_facts:
+                        facts, cases = by_facts[ci]
+                        light = [x for x in s1.pc if not has_quantifier(x) and not self.has_spec_app(x)]
+                        oid = '%s::%s.inv%d.step' % (self.c.key, site, ci)
+                        if cases:
+                            self.vcs.append(VC(oid, light + facts, z3.Or(*cases), n.lineno, 'cases exhaustive'))
+                            for cz in cases:
+                                self.vcs.append(VC(oid, light + facts + [cz], g, n.lineno, clause))
+                        else:
+                            self.vcs.append(VC(oid, light + facts, g, n.lineno, clause))
+                    else:
+                        self.oblige(s1, '%s.inv%d.step' % (site, ci), g, n, note=clause)
             elif ctl == 'break':
                 outs.append((s1, None))
             else:
